@@ -52,8 +52,12 @@ func newC11Cast() *c11Cast {
 	ce := world.SimpleCRL(p.CA, 7, 201)
 	ce.Exts = append(ce.Exts, world.UnknownExt(true, 8))
 	c.docs["critext{r}"] = ce.DER()
-	c.docs["good{a}"] = world.SimpleCRL(p.CA, 8, 202).DER()
-	c.docs["good{}"] = world.SimpleCRL(p.CA, 9).DER()
+	// the accepted lists carry no cRLNumber (it is optional): what supersedes a list is the later accepted download,
+	// not a number comparison
+	ga, ge := world.SimpleCRL(p.CA, 8, 202), world.SimpleCRL(p.CA, 9)
+	ga.Exts, ge.Exts = ga.Exts[:1], ge.Exts[:1]
+	c.docs["good{a}"] = ga.DER()
+	c.docs["good{}"] = ge.DER()
 	return c
 }
 
@@ -346,9 +350,9 @@ func RunC11(tier string, args []string) int {
 		shard, _ := strconv.Atoi(args[2])
 		n, _ := strconv.Atoi(args[3])
 		c := newC11Cast()
-		depth := 4
+		depth := 5
 		if wtier == "thorough" {
-			depth = 5
+			depth = 12
 		}
 		out := hWorkerOut{Outcomes: map[string]int{}}
 		vs := newViolSet()
